@@ -10,6 +10,9 @@ ENTRY = dict(
                   "c17_restrict_paths", "c17_restrict_out_of_range",
                   "c17_decompose_call_total", "c17_decompose_call_crash",
                   "c17_expand_outcome", "c17_refusal_reason",
+                  "c17_call_recombine", "c17_call_cover_exactly_once",
+                  "c17_expand_phase_kept", "c17_expand_zero_qubits",
+                  "c17_interning_contract", "c17_interner_sound",
                   "c17_facts", "c17_source_facts"],
         allowed_axioms=[],
         facts=["value_error_sites", "c17_source_shape"],
@@ -19,7 +22,12 @@ ENTRY = dict(
                    "order, phase dropped/kept, partition recombines to the original string, refusals; plus outcome (totality) theorems: "
                    "expansion is answered iff the counts agree and every original qubit is present, otherwise refused with the count "
                    "message first and else the FIRST missing qubit named, and it never fails otherwise; decomposition as a public call "
-                   "answers iff there are at most num_qubits labels (more labels: IndexError, reachable). Closed under the global "
+                   "answers iff there are at most num_qubits labels (more labels: IndexError, reachable); the dict returned by that public call "
+                   "covers every qubit index exactly once whatever the label values (None included) and every row recombines to the "
+                   "original letters; expansion keeps every phase on every answered call (closed form for 0-qubit originals); the label "
+                   "glue is modelled (Python labels of any type with dict-key equality, first key object kept, the harness's Interner) "
+                   "and proved sound: interning commutes with the grouping, and the Interner's numbering is the dict-key equality "
+                   "whenever that equality is an equivalence. Closed under the global "
                    "context. The model is run against the implementation on 1500 generated cases per quick run (about 21000 thorough).",
         level_note=STD_NOTE + "No axioms. The source-shape fact (tools/facts_c17.py) pins, statement by statement, the lines the model "
                    "mirrors (no phase argument in the restriction, `!=` count guard on num_qubits, CircuitError handler, result width "
@@ -32,7 +40,13 @@ ENTRY = dict(
             "symplectic arrays as one letter per qubit index; classical bits, ancilla flags and register structure are NOT in the model - "
             "the harness varies them (registers owning bits, registers over loose bits, overlapping registers, ancilla registers, clbits, "
             "outputs of cut_wires/_transform_cuts_to_moves) and checks that the answer depends on the two .qubits lists only",
-            "labels are interned by Python ==/hash classes (dict-key semantics; False/0/0.0 and True/1/1.0 coincide)",
+            "labels: the nat labels of the model are the harness Interner's numbering of the Python labels. That this numbering is sound is "
+            "no longer an assumption about the harness: c17_interner_sound proves it for the modelled Interner from three premises on "
+            "Python's dict-key equality (reflexive, symmetric, transitive), and c17_interning_contract states the exact contract "
+            "(ids equal <-> same dict key) for any numbering. What remains assumed, and is monitored on every generated call "
+            "(contracts interning_is_dict_key_equality, dict_key_equality_is_equivalence, dict_keeps_first_key_object; also for the "
+            "Qubit objects of the expand stream): that Python's dict and harness/common.py Interner behave as Model/ObservablesExt.v "
+            "says on the objects used (False/0/0.0/np.int64(0), True/1/1.0/np.bool_(True), equal tuples/frozensets built separately)",
             "a refusal counts only if the ValueError is raised by a frame of the package with one of the two documented messages "
             "('must have the same number of qubits' / 'cannot be found in the `final_circuit`'); a ValueError from numpy broadcasting is "
             "recorded as an undocumented refusal and never accepted (neither by the model comparison nor by judge)",
